@@ -522,6 +522,27 @@ func (c *Ctx) ruleC11Close() {
 			}
 			return true
 		})
+		// the pending directive (the one that may carry the '(') joins the context chain only when it is finalised:
+		// the test must come after
+		pcd := c.P.LookupFunc("core", "JApiCore.processCurrentDirective")
+		fin := callsIn(g.Pkg, g.Decl.Body, pcd)
+		tests := callsIn(g.Pkg, g.Decl.Body, huc)
+		gcf := buildCFG(g.Decl.Body)
+		ordered := len(fin) >= 1 && len(tests) >= 1
+		for _, t := range tests {
+			dom := false
+			for _, fc := range fin {
+				if gcf.dominatedBy(t, fc) && fc.Pos() < t.Pos() {
+					dom = true
+				}
+			}
+			ordered = ordered && dom
+		}
+		if ordered {
+			r.Ok("C11-CLOSE", "finalise before the EOF test", "processEOF finalises the pending directive before it looks for an open explicit context", c.pos(g.Decl.Pos()))
+		} else {
+			r.Bad("C11-CLOSE", "finalise before the EOF test", "processEOF looks for an open explicit context before the pending directive is finalised: a '(' of the last directive of the file is not seen", c.pos(g.Decl.Pos()))
+		}
 		if ok {
 			r.Ok("C11-CLOSE", "unclosed at EOF", "processEOF returns an error when an explicit context is still open", c.pos(g.Decl.Pos()))
 		} else {
